@@ -47,7 +47,8 @@ RULE = (
     "{def,assign,class(with imports in the body),from-import (absolute/relative level 1-3, optional as-name),wildcard import,import [as],"
     "__all__ = names + spliced __all__ of other modules,__all__ +=}; targets drawn from generated modules, their members, missing modules, "
     "the importing module itself; histories = 1-8 loader operations (load pkg | resolve_aliases(implicit, external in {None,False,True}) x2 | "
-    "expand_wildcards | dereference all aliases) on one GriffeLoader, as Hypothesis lists and as a RuleBasedStateMachine. "
+    "expand_wildcards | dereference all aliases) on one GriffeLoader, as Hypothesis lists and as a RuleBasedStateMachine; one third of the cases are chains "
+    "of 3-4 packages (each imports from the next; pools p/q/r, p/_p/__p, ...) of which only the head is loaded explicitly. "
     "non-trivial = the model graph has a dangling target (missing module / unbound name) or a cycle in the module-level import graph "
     "(self-import included) and at least one package was loaded; distinct = distinct (graph, history)"
 )
@@ -145,6 +146,7 @@ class Session:
         self.classes: Counter = Counter()
         self.loaded: list[str] = []
         self.timed_out: str | None = None
+        self.step_index = -1
 
     def close(self) -> None:
         shutil.rmtree(self.root, ignore_errors=True)
@@ -265,6 +267,7 @@ class Session:
     def step(self, step) -> list[Fail]:
         """Run one operation; returns the failures of this step ([] = all clauses hold)."""
         kind = step[0]
+        self.step_index += 1
         try:
             with time_limit(self.budget):
                 return self._step(kind, step)
@@ -305,7 +308,7 @@ class Session:
         if kind == "resolve":
             implicit, external = step[1], step[2]
             what = f"resolve_aliases(implicit={implicit}, external={external})"
-            unresolved1, _it1 = call("total", loader.resolve_aliases, implicit=implicit, external=external, what=what)
+            unresolved1, it1 = call("total", loader.resolve_aliases, implicit=implicit, external=external, what=what)
             self.classes[f"step:resolve:implicit={implicit}:external={external}"] += 1
             fails = self.check_all_or_nothing(what)
             snap1, mods1 = self.snapshot()
@@ -319,7 +322,10 @@ class Session:
                 k for k, st1 in snap1.items()
                 if k.endswith("/*") and "/*" not in st1[1] and (snap2.get(k) != st1 or st1[1].split(".")[0] in newly)
             )
-            detail = {"wildcards_expanded_by_second_call": late, "newly_loaded": newly}
+            detail = {
+                "wildcards_expanded_by_second_call": late, "newly_loaded": newly,
+                "step_index": self.step_index, "first_call": {"unresolved": sorted(unresolved1), "iterations": it1},
+            }
             if unresolved1 != unresolved2:
                 fails.append(
                     Fail("fixpoint", "unresolved-set-differs" + (":late-wildcard-expansion" if late else ""),
@@ -344,6 +350,9 @@ class Session:
                 )
             if unresolved1:
                 self.classes["obs:unresolved-after-resolve"] += 1
+            side = len(set(coll.members) - set(self.loaded))
+            if side:
+                self.classes[f"obs:side-loaded-packages={min(side, 3)}{'+' if side > 3 else ''}"] += 1
             return fails
         if kind == "deref":
             # "resolving again is a no-op": dereferencing re-attempts the resolution of every unresolved alias, so the
@@ -479,7 +488,55 @@ def _is_placeholder_leak(case, fail: Fail) -> bool:
     return fail.clause == "fixpoint" and fail.kind == "alias-state-changes:leaked-placeholder" and bool(d.get("leaked_placeholders"))
 
 
-KNOWN = {K_WILDCARD: _is_wildcard_born, K_SINGLEPASS: _is_late_expansion, K_LEAK: _is_placeholder_leak}
+def _is_set_rule_stop(case, fail: Fail) -> bool:
+    """fixpoint fails although the first resolve_aliases call stopped exactly where the documented rule stops
+    (an iteration that leaves the same *set* of unresolved aliases as the previous one): the same history is re-run
+    in a fresh loader with the failing call replaced by single iterations (max_iterations=1) until two consecutive
+    iterations return the same set; the finding is recognised iff the real call did that number of iterations and
+    returned that set.  Then the cause is the rule itself: an iteration can make progress without changing the set
+    (it side-loaded a package; aliases of modules visited earlier in that iteration, or of the new package, are
+    not retried).  A call that stops earlier or later than the rule (e.g. comparing counts) is not attributed."""
+    d = fail.detail or {}
+    first = d.get("first_call")
+    if fail.clause != "fixpoint" or not first or "late-wildcard" in fail.kind or "leaked" in fail.kind or "deref" in fail.kind:
+        return False
+    if not fail.kind.startswith(("unresolved-set-differs", "alias-state-changes", "loads-more-modules")):
+        return False
+    idx = d.get("step_index")
+    steps = case["steps"]
+    if idx is None or idx >= len(steps) or steps[idx][0] != "resolve":
+        return False
+    session = Session(case)
+    try:
+        for step in steps[:idx]:
+            if session.step(step) and step[0] != "resolve":
+                return False
+        implicit, external = steps[idx][1], steps[idx][2]
+        sets = []
+        with time_limit(CALL_BUDGET_S * 20):
+            while len(sets) < 25:
+                u, _ = session.loader.resolve_aliases(implicit=implicit, external=external, max_iterations=1)
+                sets.append(set(u))
+                if not u or (len(sets) > 1 and sets[-1] == sets[-2]):
+                    break
+    except (Exception, CaseTimeout):  # noqa: BLE001
+        return False
+    finally:
+        session.close()
+    return len(sets) == first["iterations"] and sorted(sets[-1]) == first["unresolved"]
+
+
+K_SETRULE = "resolve-aliases-stops-after-side-load"
+K_SIDELOAD_ITER = "resolve-side-load-mutates-members"
+
+
+def _is_side_load_mutation(case, fail: Fail) -> bool:
+    """resolve_aliases raises RuntimeError (dictionary changed size during iteration) from resolve_module_aliases:
+    side-loading a package while iterating `obj.members`; the new package's own wildcard expansion adds members to obj."""
+    return fail.clause == "total" and fail.kind == "resolve:raises:RuntimeError@_griffe/loader.py:resolve_module_aliases"
+
+
+KNOWN = {K_SETRULE: _is_set_rule_stop, K_SIDELOAD_ITER: _is_side_load_mutation, K_WILDCARD: _is_wildcard_born, K_SINGLEPASS: _is_late_expansion, K_LEAK: _is_placeholder_leak}
 STEERING = (K_WILDCARD, K_SINGLEPASS, K_LEAK)
 
 
@@ -511,13 +568,34 @@ def case_strategy(steered: bool):
     return c06_graph.graphs(steered=steered).flatmap(with_steps)
 
 
+def chain_case_strategy(steered: bool):
+    """Only the head of a chain of packages is loaded explicitly; the others can only enter the collection by
+    side-loading during resolve_aliases (external=True, or external=None through the private-sibling rule)."""
+    resolve = st.tuples(st.just("resolve"), st.sampled_from((True, True, False)), st.sampled_from((True, True, None, None, False)))
+    tail = st.lists(st.one_of(resolve, st.tuples(st.just("deref"))), min_size=0, max_size=2)
+
+    def with_steps(model):
+        chain = model["chain"]
+        heads = st.sampled_from(([chain[0]], [chain[0]], [chain[0]], chain[:2], [chain[1]]))
+        return st.tuples(heads, resolve, tail).map(
+            lambda t: {
+                "pkgs": model["pkgs"],
+                "chain": chain,
+                "steps": [["load", n] for n in t[0]] + [list(t[1])] + [list(x) for x in t[2]] + [["deref"]],
+                **({"steered": True} if steered else {}),
+            }
+        )
+
+    return c06_graph.chain_graphs(steered=steered).flatmap(with_steps)
+
+
 def strategy(ctx):
     # While the wildcard finding is listed, half of the cases are generated with wildcard imports only from modules
     # that contain no imports (no born-resolved alias can point at an unresolved one: the all-or-nothing clause is then
     # checked without any attribution); the other half keeps cyclic / chained wildcards for the remaining clauses.
     if any(k in ctx.known for k in STEERING):
-        return st.one_of(case_strategy(True), case_strategy(False)), "graphs"
-    return case_strategy(False), "graphs"
+        return st.one_of(case_strategy(True), case_strategy(False), case_strategy(True), case_strategy(False), chain_case_strategy(True), chain_case_strategy(False)), "graphs"
+    return st.one_of(case_strategy(False), case_strategy(False), chain_case_strategy(False)), "graphs"
 
 
 # ----------------------------------------------------------------------------- state machine
@@ -538,7 +616,7 @@ def _run_machine(ctx, n_examples: int) -> None:
             self.steps = []
             self.fails = []
 
-        @initialize(model=st.one_of(c06_graph.graphs(steered=steered), c06_graph.graphs(steered=False)))
+        @initialize(model=st.one_of(c06_graph.graphs(steered=steered), c06_graph.graphs(steered=False), c06_graph.chain_graphs(steered=False)))
         def start(self, model):
             self.model = model
             self.session = Session(model)
